@@ -16,6 +16,14 @@ func RemoveTmpFiles(rootDir string) error {
 		if !strings.HasPrefix(info.Name(), "tmp") {
 			return nil
 		}
-		return os.RemoveAll(path)
+		if err := os.RemoveAll(path); err != nil {
+			return err
+		}
+		// The walk has already listed the contents of a directory before it visits it:
+		// do not descend into the directory that was just removed.
+		if info.IsDir() {
+			return filepath.SkipDir
+		}
+		return nil
 	})
 }
